@@ -975,12 +975,10 @@ impl<T, S: Status> FusedIterator for Drain<'_, T, S> {}
 
 impl<T, S: Status> Drop for Drain<'_, T, S> {
     fn drop(&mut self) {
-        while self.len != 0 {
-            let next = self.iter.next();
-            debug_assert!(next.is_some());
-            // SAFETY: The remaining part of the slice has at least `self.len`
-            // elements by invariant
-            let slot = unsafe { next.unwrap_unchecked() };
+        // Visit all remaining slots (not only those up to the last element):
+        // `RawTable::drain()` accounts every slot as free, so tombstones
+        // behind the last element must be turned into free slots as well.
+        for slot in &mut self.iter {
             let status = slot.status;
             slot.status = S::FREE;
             if status.is_hash() {
@@ -991,6 +989,7 @@ impl<T, S: Status> Drop for Drain<'_, T, S> {
                 unsafe { slot.data.assume_init_drop() };
             }
         }
+        debug_assert_eq!(self.len, 0);
     }
 }
 
